@@ -146,12 +146,15 @@ def run_property(prop, module, tier, seed, repo, explain=None, overrides=None, q
     und = [o for o in A.obligations if o.status == 'undecided']
     new_viol = []
     matched_known = []
+    seen_keys = {}
     for o in viol:
         k = next((k for k in known if k.get('rule') == o.rule and k.get('key') == o.key), None)
         if k is not None:
-            matched_known.append((o, k))
-        else:
+            if (o.rule, o.key) not in seen_keys:
+                matched_known.append((o, k))
+        elif (o.rule, o.key) not in seen_keys:
             new_viol.append(o)
+        seen_keys[(o.rule, o.key)] = seen_keys.get((o.rule, o.key), 0) + 1
     if quiet:
         return (1 if new_viol else (2 if und else 0)), A
     for o, k in matched_known:
@@ -165,7 +168,9 @@ def run_property(prop, module, tier, seed, repo, explain=None, overrides=None, q
             json.dump({'property': prop, 'rule': o.rule, 'obligation': o.what, 'key': o.key,
                        'site': o.site, 'detail': o.detail, 'behaviour': o.behaviour,
                        'repo': repo, 'tier': tier}, f, indent=1, default=str)
-        print('  violated: [%s] %s' % (o.rule, o.what))
+        cnt = seen_keys.get((o.rule, o.key), 1)
+        print('  violated: [%s] %s%s' % (o.rule, o.what,
+                                         ' (%d paths/cases)' % cnt if cnt > 1 else ''))
         if o.site:
             print('    at %s' % o.site)
         if o.detail:
